@@ -39,7 +39,7 @@ func FQDN(domain string) string {
 // domains are simply converted to local-case using strings.ToLower, but the
 // error is also returned.
 func ForLookup(domain string) (string, error) {
-	uDomain, err := idna.ToUnicode(domain)
+	uDomain, err := idna.ToUnicode(LowerACE(domain))
 	if err != nil {
 		return strings.ToLower(domain), err
 	}
@@ -50,6 +50,21 @@ func ForLookup(domain string) (string, error) {
 	uDomain = strings.ToLower(uDomain)
 	uDomain = strings.TrimSuffix(uDomain, ".")
 	return uDomain, nil
+}
+
+// LowerACE converts A-labels spelled in upper or mixed case ("XN--...") to
+// lower case.
+//
+// DNS labels are case-insensitive, but idna.ToUnicode recognizes the ACE
+// prefix only in lower case and leaves "XN--..." labels undecoded.
+func LowerACE(domain string) string {
+	labels := strings.Split(domain, ".")
+	for i, label := range labels {
+		if len(label) >= 4 && strings.EqualFold(label[:4], "xn--") {
+			labels[i] = strings.ToLower(label)
+		}
+	}
+	return strings.Join(labels, ".")
 }
 
 // Equal reports whether domain1 and domain2 are equivalent as defined by
